@@ -222,15 +222,73 @@ def trust_scan(build):
     return out
 
 
+def _settle_auto(unit_dir, repo, name, b):
+    """Find the set of R22 automatic closure postconditions that Verus accepts (see run_unit)."""
+    auto_off = set()
+    unit = b['unit']
+    for attempt in range(8):
+        work = tempfile.mkdtemp(prefix='verif-%s-auto-' % name, dir=os.environ.get('VERIF_SCRATCH', '/var/tmp'))
+        try:
+            gen = os.path.join(work, name + '.rs')
+            open(gen, 'w').write(b['text'])
+            cmd = [VERUS, gen, '--triggers-mode', 'silent', '--error-format=json', '--output-json',
+                   '--multiple-errors', '20', '--rlimit', str(unit.get('rlimit', 30))]
+            rc, so, se, dt = _run(cmd, work, unit.get('timeout', 600))
+        finally:
+            shutil.rmtree(work, ignore_errors=True)
+        drop = set()
+        rejected = False
+        for ln in se.split('\n'):
+            ln = ln.strip()
+            if not ln.startswith('{'):
+                continue
+            try:
+                d = json.loads(ln)
+            except ValueError:
+                continue
+            if d.get('level') != 'error' or d.get('message', '').startswith('aborting due to'):
+                continue
+            msg = d.get('message', '')
+            marks = set(re.findall(r'__ar_\w+', d.get('rendered') or ''))
+            if FAIL_RE.search(msg) and not d.get('code'):
+                # a proof failure: only the automatic clause itself counts
+                for sp in d.get('spans', []):
+                    txt = ''.join(t.get('text', '') for t in sp.get('text', []))
+                    lab = sp.get('label') or ''
+                    if '__same_val(' in txt and ('failed this postcondition' in lab):
+                        drop |= set(re.findall(r'__ar_\w+', txt))
+            else:
+                rejected = True
+                drop |= marks
+        drop -= auto_off if isinstance(auto_off, set) else set()
+        if not drop:
+            if rejected and auto_off != 'ALL':
+                auto_off = 'ALL'
+                b = extract.build(unit_dir, repo, canary=False, auto_off=auto_off)
+            return auto_off, b
+        auto_off |= drop
+        b = extract.build(unit_dir, repo, canary=False, auto_off=auto_off)
+        if not any(l.get('rule') == 'R22' for l in b['log']):
+            return auto_off, b
+    auto_off = 'ALL'
+    return auto_off, extract.build(unit_dir, repo, canary=False, auto_off=auto_off)
+
+
 def run_unit(unit_dir, repo='/repo', tier='quick', seed=0, keep=None, rlimit=None):
     t0 = time.time()
     name = os.path.basename(os.path.normpath(unit_dir))
     res = {'unit': name, 'status': 'undecided', 'reasons': [], 'failures': [], 'obligations': 0,
            'discharged': 0, 'functions': [], 'rewrites': [], 'assumptions': [], 'samples': [],
            'solver_s': 0.0, 'wall_s': 0.0, 'backend': 'verus', 'checker_cmd': ''}
+    auto_off = set()
     try:
-        b = extract.build(unit_dir, repo, canary=False)
-        bc = extract.build(unit_dir, repo, canary=True)
+        b = extract.build(unit_dir, repo, canary=False, auto_off=auto_off)
+        if any(l.get('rule') == 'R22' for l in b['log']):
+            # R22 retry loop: an automatic closure postcondition that Verus rejects (its body is not a
+            # spec-mode expression) or cannot prove is left out and the unit is rebuilt; as a last resort
+            # all of them are left out (the unit is then exactly what it was without R22)
+            auto_off, b = _settle_auto(unit_dir, repo, name, b)
+        bc = extract.build(unit_dir, repo, canary=True, auto_off=auto_off)
     except extract.Undecided as ex:
         res['reasons'].append('extraction: %s' % ex)
         res['wall_s'] = time.time() - t0
@@ -240,6 +298,22 @@ def run_unit(unit_dir, repo='/repo', tier='quick', seed=0, keep=None, rlimit=Non
         res['wall_s'] = time.time() - t0
         return res
     unit = b['unit']
+    # closure fingerprint: closures without any contract, per function and callee, compared with the
+    # committed baseline (units/<u>/closures.json, written by tools/fingerprint.py on the unchanged tree)
+    opaque = {}
+    for l in b['log']:
+        if l.get('rule') == 'opaque-closure':
+            opaque.setdefault(l['fn'], {}).setdefault(l['callee'], 0)
+            opaque[l['fn']][l['callee']] += 1
+    res['opaque_closures'] = opaque
+    new_opaque = {}
+    fp_path = os.path.join(unit_dir, 'closures.json')
+    if os.path.exists(fp_path):
+        base_fp = json.load(open(fp_path))
+        for fn, d in opaque.items():
+            for callee, cnt in d.items():
+                if cnt > base_fp.get(fn, {}).get(callee, 0):
+                    new_opaque.setdefault(fn, []).append(callee)
     res['functions'] = [dict((k, it[k]) for k in ('fn', 'file', 'line', 'sha256', 'under_contract') if k in it)
                         for it in b['items'] if 'fn' in it]
     res['types'] = [dict((k, it[k]) for k in it if k != 'props') for it in b['items'] if 'fn' not in it]
@@ -312,6 +386,17 @@ def run_unit(unit_dir, repo='/repo', tier='quick', seed=0, keep=None, rlimit=Non
         res['runs'] = [{k: r[k] for k in ('seed', 'rc', 'verified', 'errors', 'time_s')} for r in [first]]
         if first['undecided']:
             res['reasons'] += first['undecided']
+        # a failed obligation inside a function that has gained a closure without any contract is not
+        # reported as a violation: the verifier knows nothing about what that closure returns, so the
+        # failure may be an artefact of the new construct (undecided, exit 2, never an alarm)
+        kept = []
+        for f in first['failures']:
+            if f['fn'] in new_opaque:
+                res['reasons'].append('unsupported construct: %s now passes a closure without a contract to `%s`; '
+                                      'obligation not decided: %s' % (f['fn'], '`, `'.join(sorted(set(new_opaque[f['fn']]))), f['id']))
+            else:
+                kept.append(f)
+        first['failures'] = kept
         res['failures'] = first['failures']
         nfail = len(first['failures'])
         res['discharged'] = max(0, res['obligations'] - nfail)
